@@ -10,7 +10,7 @@ RULE_TEXT = {
     "Q4": "the sender slot is emptied under its lock and the Exit marker is sent through the sender taken out of the slot (or under the lock); every path of close() that finds a sender takes it out, whatever happens to the Exit marker",
     "Q5": "every Ok path of a dispatch body performs exactly one synchronous enqueue of Action(param); no enqueue sits in a deferred closure",
     "Q6": "all callbacks of an action lie on the consumer's receive cycle of the reducer thread's synchronous call tree; none runs in a closure handed to a pool/thread",
-    "D1": "dispatchers handed to hooks, effects and thunks wrap a clone of the store's own Arc",
+    "D1": "dispatchers handed to hooks, effects and thunks wrap a clone of the store's own Arc (also through a crate type whose Dispatcher impl forwards every method unchanged to its only field, or a private struct built in dispatch_thunk)",
     "PI1": "between two receives there is exactly one state read and one write-back; each callback sits in exactly one collection loop",
     "PI2": "no event of a later pipeline phase can precede an event of an earlier phase within one pass; read, write-back and the effect phase are on every pass",
     "PB1": "every path from the receive to a subscriber / effect hand-over / later hook passes the write-back of the state cell",
@@ -42,16 +42,16 @@ RULE_TEXT = {
     "SU4": "direct on_notify runs with the subscriber-list lock held (delivery atomic with membership)",
     "LC1": "on_unsubscribe is called only from the unsubscribe predicate and the shutdown release",
     "RG1": "reducers and middlewares are appended with push under their lock and never reordered or removed; the constructor stores the vectors it is given",
-    "ST1": "every path through stop() closes the queue, empties the pool slot under its lock and joins the taken pool with no store lock held",
+    "ST1": "every path through stop() closes the queue, empties the pool slot under its lock and joins the pool of that slot (the taken one, or a clone joined before the take) with the timed join and no store lock held; a path that found both slots empty has nothing to do",
     "ST2": "with the sender slot empty every dispatch body returns Err(DispatchError) without enqueue or pool submission",
     "ST3": "the receive loop continues only after an Action item and ends only on the Exit marker or disconnection; the None it ends on means disconnection (blocking recv(), or Timeout/Empty told apart from Disconnected)",
     "ST4": "reducer/middleware/direct-subscriber call sites are reachable only from the reducer thread's loop; channeled on_notify only from its own thread",
-    "ST5": "a second close finds the slot empty and performs no queue operation",
+    "ST5": "a second close finds the slot empty and performs no queue operation (in stop() the pool join that follows is ST1's business)",
     "E1": "both answer arms push the returned effect (if any) onto one vector created per pass and returned with the chain result",
-    "E2": "the effect loop runs until the vector is empty, takes one effect per iteration and hands each variant's payload over exactly once; every pass reaches the loop or a look at the vector made after the before_effect hooks",
+    "E2": "the effect loop runs until the vector is empty, takes one effect per iteration and hands each variant's payload over exactly once - a closure of the store's own that wraps a payload calls it exactly once on every path; every pass reaches the loop or a look at the vector made after the before_effect hooks",
     "E3": "effect payloads (boxed FnOnce) are called only inside closures submitted to the pool or handed to dispatch_task/thunk, with no store lock held",
     "E4": "the closure built for Effect::Action dispatches the captured action once through the dispatcher it is given",
-    "E5": "dispatch_task/dispatch_thunk submit the task on every path; a None pool slot is acceptable only if stop() waits for the reducer loop before emptying the slot",
+    "E5": "dispatch_task/dispatch_thunk submit the task on every path; a None pool slot is acceptable only if stop() waits for the reducer loop before emptying the slot (on every path that empties it: a join of the slot's pool, or a wait that the reducer closure ends when it returns)",
     "E6": "the reducer thread never dispatches or enqueues into its own queue synchronously",
     "N4": "with a Dispatch answer and no before_dispatch veto every received action reaches the subscriber loop (or an emptiness test of the list)",
     "CB1": "the reducer thread holds neither the state lock during any user callback nor the subscriber-list lock during on_notify",
@@ -70,14 +70,14 @@ RULE_TEXT = {
     "Q7": "the consumer's receive call returns crossbeam's recv() result directly, without buffering or re-ordering",
     "SU6": "no user callback runs between reading the subscriber list and the delivery loop of the same pass",
     "SU5": "the shutdown release (unsubscribe-all + clear) is reachable only from the end of the reducer thread, never from client-callable entry points",
-    "Q9": "a dispatch entry point returns Err only when the sender slot is empty or the enqueue was rejected; the sender lock is taken with the blocking lock()",
+    "Q9": "a dispatch entry point returns Err only when the sender slot is empty or the enqueue was rejected; the sender lock is taken with the blocking lock() (or a try_lock whose failure leads to it on the same path)",
     "MW5": "with a non-empty middleware list every action reaches each hook loop (before_dispatch: every notifying action)",
     "SE5": "last_value is touched only by on_notify/new; the selector subscriber has no lifecycle-dependent state",
     "IN4": "exported subscriber types change no state in on_unsubscribe",
     "IN6": "exported callback types own no interior-mutable state beyond the confirmed table (SelectorSubscriber's memo)",
     "IN5": "callback methods of exported (shareable) types wait for their own locks: no try_lock whose failure path depends on another store",
     "LC3": "every on_unsubscribe call runs with the subscriber-list lock held in its calling context",
-    "BU1": "each builder setter returns self and writes only its own option with values from its own parameter (with_* replaces, add_* pushes)",
+    "BU1": "each builder setter returns self and writes only its own option with values from its own parameter (with_* replaces, add_* pushes); a setter that delegates to another setter has that setter's effects with its argument substituted",
     "BU2": "build() fails with InitError exactly on: no reducer and not without_reducer, empty name, capacity 0; otherwise calls the constructor",
     "BU3": "build passes every builder field to the matching constructor parameter, which reaches the cell, the lists, the queue (capacity, policy) and the pool name",
     "BU4": "StoreBuilder::new / new_with_reducer start from the documented defaults",
@@ -89,8 +89,8 @@ RULE_TEXT = {
     "DS1": "Drop for DroppableStore calls stop() on the wrapped handle on every path, unconditionally",
     "DS2": "deref exposes the wrapped Arc itself; new wraps the handle it is given",
     "IT1": "iter() builds a capacity-1 BlockOnFull channel, gives the sender to the registered feeder and the receiver plus handle to the iterator",
-    "IT2": "the feeder enqueues exactly one Action((state.clone(), action.clone())) per notification and one Exit on unsubscribe",
-    "IT3": "next() yields exactly the received Action payload; every None path unsubscribes (once) and drops the receiver (fused)",
+    "IT2": "the feeder enqueues exactly one Action((state.clone(), action.clone())) per notification and, on unsubscribe, ends the stream: one Exit, or its sender taken out of its slot (disconnection)",
+    "IT3": "next() yields exactly the received Action payload; every None path unsubscribes (once) and drops the receiver, or found the receiver slot already empty (fused)",
     "IT4": "dropping the iterator unsubscribes if the handle is still present",
     "R1": "the user's subscriber is moved into the spawned closure only; its on_notify has one call site, reachable only from that thread",
     "R2": "release = empty and drop the sender slot, then join the thread; reached from on_unsubscribe and unsubscribe; idempotent",
@@ -98,18 +98,18 @@ RULE_TEXT = {
     "R4": "the delivery loop calls on_notify once per received Action item with that item's state and action and ends on Exit/disconnect",
     "R5": "subscribed() = subscribed_with(DEFAULT_CAPACITY, BlockOnFull, ..); the per-subscriber channel uses the caller's capacity and policy",
     "ME1": "action_received is called once per received item before its kind is examined",
-    "ME2": "a channel that shares the store's metrics object must not be able to use a drop policy unless it is the dispatch queue",
+    "ME2": "a channel that shares the store's metrics object (not: gets none, or a view of it whose action_dropped does nothing) must not be able to use a drop policy unless it is the dispatch queue",
     "ME3": "action_reduced is called once after the reducer loop on every reduced path and never on the vetoed path",
     "ME4": "effect_issued(effects.len()) once per pass, the length taken before any before_effect hook",
     "ME6": "error_occurred is called exactly on the closed-store path of StoreImpl::dispatch",
     "ME7": "event counters are only fetch_add'ed (by one or by the count parameter, each method its own counter); other atomic writes only in uncalled code",
     "ME8": "every snapshot field is the load of the equally named counter",
     "ME9": "one metrics object per store, created in the constructor and shared with the dispatch queue",
-    "IN1": "no static / thread_local item, no thread-local access, no unsafe, no process-global API, third-party callees on the instance-scoped allow-list",
+    "IN1": "no static / thread_local item, no thread-local access, no unsafe, no process-global API (explicitly taken stdout / stderr lock guards included), third-party callees on the instance-scoped allow-list",
     "IN2": "every field of a new store is built from constructor parameters or values created in that call",
     "IN3": "wrappers hold only the channel created for them; the store name is only formatted",
-    "L1": "lock-order graph over all role-rooted call graphs (with class-hierarchy resolution and the user-callback model) is acyclic and has no self edge",
-    "L2": "no blocking operation is performed while holding a lock that the party able to unblock it takes; no role blocks on a channel it consumes itself; joined threads are disconnected first",
+    "L1": "lock-order graph over all role-rooted call graphs (with class-hierarchy resolution and the user-callback model: callbacks may call get_state / get_metrics, on_notify also unsubscribe(); C13: read the state only) is acyclic and has no self edge; nothing is acquired under the sender lock",
+    "L2": "no blocking operation (send, receive, thread / pool join, a wait for the reducer thread's end) is performed while holding a lock that the party able to unblock it takes; no role blocks on a channel it consumes itself; joined threads are disconnected first",
     "PROFILE": "dev and release MIR give identical instance verdicts",
     "CTRL": "positive control: the detector fires on the fixture crate",
     "WIT": "compile-fail witness with compiling twin",
